@@ -12,6 +12,24 @@ for l in open('/verif/properties.jsonl'):
     props[p['id']] = p
 
 STEER = {
+ 'E': {
+  'C01': 'Earlier rounds already used: large-frame write coalescing, placeholder moov sizing, stss recorded before validation, dropping short H.265 NAL units. Do something DIFFERENT - for example in the H.264 Annex B to length-prefixed conversion (emulation-prevention bytes, 3-byte vs 4-byte start codes adjacent to payload zeros), in which samples are listed as sync samples when EVERY or NO sample is a keyframe, in the Opus/AAC path with metadata and fast start combined, or in the sample-to-chunk (stsc) runs for particular sample counts.',
+  'C02': 'Earlier rounds already used: a byte counter in the fragmented muxer, dropping a silent audio trak, a schedule keyed without index, the date item in udta. Do something DIFFERENT - for example the hdlr / name strings, the esds descriptor length bytes when the AudioSpecificConfig or descriptor grows past 127 bytes, dOps for particular channel counts, the moof / traf / trun sizes of a media segment for particular sample counts or flags, or the colr / pasp / btrt style optional child boxes of a sample entry.',
+  'C03': 'Earlier rounds already used: check order behind the duration back-patch, ctts written only when offsets vary, last audio delta, snapping to the nominal frame duration. Do something DIFFERENT - for example run-length merging of equal stts/ctts entries going wrong for particular patterns (A A B A, a run longer than some count), the duration given to the LAST video sample, timestamps that do not start at zero, or the encode_video / encode_audio automatic clocks for particular frame rates / sample rates / packet sizes.',
+  'C04': 'Earlier rounds already used: first_video_pts on the dts path, rejected encode_* advancing the clock, audio gap above u32, audio(None) after audio(...). Do something DIFFERENT - for example the ADTS header validation (sampling-frequency index, frame-length field versus buffer length, channel configuration 0), the Opus TOC / packet validation, the VP9 or AV1 first-frame configuration detection, NaN / negative / infinite timestamps, or which error VARIANT (and its fields) is reported for a given violation.',
+  'C05': 'Earlier rounds already used: composition-offset check behind a back-patch (twice), last_dts.replace in the fragmented muxer, codec configuration stored before a size check. Do something DIFFERENT - for example a rejected AUDIO call (invalid ADTS, empty Opus packet, non-monotonic audio pts) that leaves a trace, a rejected write after which finish() writes something else, or a rejected call that changes Muxer-level state in src/api.rs (the automatic encode_* clocks, the first-frame flags, the statistics).',
+  'C06': 'Earlier rounds already used: finalised flag set only after success, duration as max pts + last delta, consuming finish after in-place finish, an uncounted empty mdat. Do something DIFFERENT - for example the video_frames / audio_frames / duration_secs statistics for particular histories (audio longer than video, reordered frames, one frame), writes that are accepted AFTER a failed or successful finish, what flush() does to the sink, or the Drop behaviour of an unfinished muxer.',
+  'C08': 'Earlier rounds already used: placeholder moov sizes, stco located by scanning for its fourcc, a lone audio frame duration, language-only metadata. Do something DIFFERENT - for example the header version (32/64-bit mvhd/mdhd) chosen differently in the two layouts, co64 versus stco decisions, sync-sample tables, composition offsets or the handler/name strings differing between layouts for particular inputs.',
+  'C09': 'On the current code the property is already known NOT to hold whenever the first audio timestamp differs from the first video timestamp (no edit list). Earlier rounds already used Opus TOC durations, composition offsets for leading pictures, absorbing 1-tick residues, quantising audio to the sample clock. Your change must break it in a DIFFERENT way even when both tracks start at the same time - for example on the VIDEO side under reordering (ctts sign / version), drift that grows with the NUMBER of samples on one track only, or a timescale change for one track.',
+  'C10': 'Earlier rounds already used: monotonic check against the wrong reference, payload appended before validation, an empty flush clearing last_dts, sniffing Annex B in HEVC samples. Do something DIFFERENT - for example the trun data_offset / mdat ordering when a fragment holds many samples, the sequence numbers across flushes that returned None, samples lost or duplicated when flush is called twice in a row or when ready() is polled, or zero-length samples.',
+  'C11': 'Earlier rounds already used: durations vector off by one after a flush, mehd added later to the init segment, zero durations replaced, a fragment-start field set by rejected writes. Do something DIFFERENT - for example the duration of the LAST sample of each fragment, composition offsets (pts - dts) with pts < dts, tfdt for the very first fragment when the first dts is not 0, the tfhd / trex default flags, or the init segment depending on call history in another way.',
+  'C12': 'Earlier rounds already used: + overflow in max_end_pts, recursion in the Annex B iterator, a shift by 32 in uvlc, division by a zero frame rate. Do something DIFFERENT - for example a slice index or unwrap in the H.264 SPS / H.265 SPS parsing helpers (exp-Golomb reading past the end, emulation prevention at the very end), in the ADTS or Opus helpers for truncated input, in the CLI-independent validation / assertions helpers, or an unbounded loop for a crafted length field.',
+  'C13': 'Earlier rounds already used: InvalidData resetting finalized, vectored writes mishandling short writes, Interrupted retry restarting the buffer, a byte counter bumped after write_all. Do something DIFFERENT - for example an error from the sink flush() being swallowed or reported as success, an error during the moov (not the mdat) of the standard layout, WouldBlock / TimedOut handled like Interrupted, or the statistics / bytes_written returned by the *_with_stats entry points after a failure.',
+  'C15': 'Earlier rounds already used: tie break lost in an insertion schedule, schedule time narrowed to u32, binary_search among equal ticks, scheduling at min(dts, pts). Do something DIFFERENT - for example chunk grouping (several samples per chunk) that reorders across tracks for particular counts, the audio track scheduled in its own timescale instead of the common one, or a sort that is not stable for particular lengths.',
+  'C16': 'Earlier rounds already used: one header version chosen from the video duration only, an offset check on a rounded difference, codec configuration before the size check, the mdat size bound off by the header. Do something DIFFERENT - for example stsz sample sizes or sample counts narrowed, an entry_count computed in a smaller type, the esds / descriptor length encodings, the fragmented sequence_number / sample_count / data_offset fields, or bitrate / buffer-size fields.',
+  'C17': 'Earlier rounds already used: vectored writes, a thread-local schedule memo, rejected encode_* advancing a clock, gather writes. Do something DIFFERENT - for example a process-wide static or OnceLock (a cache keyed too coarsely, a counter, a lazily initialised table) that makes one muxer instance influence another or makes output depend on how many muxers were created before, hashing / iteration order of a HashMap that reaches the output, or reading the wall clock / process id into the file under a particular configuration.',
+  'C20': 'Earlier rounds already used: hex reader accepting a trailing nibble, option handling order of --language / --title, recursion in info, audio codec name parsing. Do something DIFFERENT - for example the frame-list / input file parsing (timestamps, blank lines, comments, CRLF line ends), what happens when the output file already exists or cannot be created, partial output left behind after a failure with exit code 0, or the validate command reporting success for a file the library would not produce.',
+ },
  'D': {
   'C01': 'Prefer a breakage that is specific to ONE codec path (H.265 length-prefixing, AV1/VP9 pass-through, Opus vs AAC) or to one combination of metadata + audio + layout, so that all other configurations stay correct.',
   'C02': 'Prefer a breakage in the fragmented INIT segment for one particular builder configuration (H.265 with VPS, AV1 sequence header, VP9 config, unusual parameter-set lengths) or in the user-data/metadata boxes of the progressive file.',
